@@ -708,7 +708,8 @@ class Cooperator:
         iterators which have been added and forget about them.
         """
         self._stopped = True
-        for taskObj in self._tasks:
+        # Completing a task removes it from self._tasks: iterate over a copy.
+        for taskObj in list(self._tasks):
             taskObj._completeWith(SchedulerStopped(), Failure(SchedulerStopped()))
         self._tasks = []
         if self._delayedCall is not None:
